@@ -1,0 +1,50 @@
+//go:build verif
+
+// Contracts for the deductive verifier in /verif (comment-only; compiled only with -tags verif).
+package connlist
+
+//@ import k8s "github.com/np-guard/netpol-analyzer/pkg/netpol/eval/internal/k8s"
+//@ import eval "github.com/np-guard/netpol-analyzer/pkg/netpol/eval"
+
+// ---------------------------------------------------------------------------------------------
+// --focusworkload is a pure filter (C16); no self pairs, no ip-ip pairs (C05)
+// ---------------------------------------------------------------------------------------------
+
+// a connlist.Peer is a workload, a pod or an IP block; each carries the object it needs
+//@ pred clPeerOK(p Peer) = (dyntype(p, *k8s.WorkloadPeer) && unwrap(p, *k8s.WorkloadPeer) != nil && unwrap(p, *k8s.WorkloadPeer).Pod != nil)
+//@     || (dyntype(p, *k8s.PodPeer) && unwrap(p, *k8s.PodPeer) != nil && unwrap(p, *k8s.PodPeer).Pod != nil)
+//@     || (dyntype(p, *k8s.IPBlockPeer) && unwrap(p, *k8s.IPBlockPeer) != nil && unwrap(p, *k8s.IPBlockPeer).IPBlock != nil)
+//@ fun clIsIP(p Peer) bool = dyntype(p, *k8s.IPBlockPeer)
+//@ fun clName(p Peer) string = if dyntype(p, *k8s.WorkloadPeer)
+//@       then (if unwrap(p, *k8s.WorkloadPeer).Pod.Owner.Name == "" then unwrap(p, *k8s.WorkloadPeer).Pod.Name else unwrap(p, *k8s.WorkloadPeer).Pod.Owner.Name)
+//@       else (if dyntype(p, *k8s.PodPeer) then unwrap(p, *k8s.PodPeer).Pod.Name else "")
+//@ fun clNamespace(p Peer) string = if dyntype(p, *k8s.WorkloadPeer) then unwrap(p, *k8s.WorkloadPeer).Pod.Namespace
+//@       else (if dyntype(p, *k8s.PodPeer) then unwrap(p, *k8s.PodPeer).Pod.Namespace else "")
+// what --focusworkload W selects: every peer when W is empty, else a peer named W or <namespace>/W
+//@ fun focusMatch(ca *ConnlistAnalyzer, p Peer) bool = ca.focusWorkload == "" || clName(p) == ca.focusWorkload
+//@       || strJoin2Name(clNamespace(p), clName(p)) == ca.focusWorkload
+
+//@ func getPeerNsNameFormat
+//@   requires clPeerOK(peer)
+//@   ensures [C16] def: res == strJoin2Name(clNamespace(peer), clName(peer))
+
+//@ func (*ConnlistAnalyzer).isPeerFocusWorkload
+//@   requires ca != nil && clPeerOK(peer)
+//@   ensures [C16] def: res == focusMatch(ca, peer)
+
+// the unfocused decision does not read the focus-workload option; the focused one is its conjunction with the filter
+//@ func (*ConnlistAnalyzer).includePairOfWorkloads
+//@   requires ca != nil && clPeerOK(src) && clPeerOK(dst)
+//@   ensures [C16] filter: res ==> (focusMatch(ca, src) || focusMatch(ca, dst))
+//@   ensures [C05] noipip: (clIsIP(src) && clIsIP(dst)) ==> !res
+//@   ensures [C16,C05] noexposure: !ca.exposureAnalysis ==> (res == (!(clIsIP(src) && clIsIP(dst)) && !clSameStr(src, dst)
+//@         && (focusMatch(ca, src) || focusMatch(ca, dst))))
+
+// the printed identity of a peer (String()): workloads by namespace/name[kind], fake pods by {name}, IP blocks by their ranges
+//@ fun wpKind(pod *k8s.Pod) string = if pod.FakePod && pod.Name == "representative-pod" then "RepresentativePeer"
+//@       else (if pod.Owner.Kind == "" then "Pod" else pod.Owner.Kind)
+//@ fun clStr(p Peer) string = if dyntype(p, *k8s.WorkloadPeer)
+//@       then (if unwrap(p, *k8s.WorkloadPeer).Pod.FakePod then ("{" + unwrap(p, *k8s.WorkloadPeer).Pod.Name) + "}"
+//@             else ((strJoin2Name(clNamespace(p), clName(p)) + "[") + wpKind(unwrap(p, *k8s.WorkloadPeer).Pod)) + "]")
+//@       else (if dyntype(p, *k8s.PodPeer) then strJoin2Name(clNamespace(p), clName(p)) else ipRangesStr(unwrap(p, *k8s.IPBlockPeer).IPBlock))
+//@ fun clSameStr(a Peer, b Peer) bool = clStr(a) == clStr(b)
